@@ -73,10 +73,28 @@ func boundaryLen(c *kernel.RunCtx, max int) int {
 		}
 		return n
 	default:
-		n := []int{65535, 65536, 65537}[c.Choose(3)]
+		// around one, two, three and four 64 KiB read chunks
+		n := []int{65535, 65536, 65537, 131071, 131072, 131073, 196609, 262145, 200001}[c.Choose(9)]
 		if n > max {
 			n = max
 		}
 		return n
 	}
+}
+
+// fillBytes returns n bytes; long strings come from a private generator seeded by ONE tape value
+// (a 256 KiB script must not cost 32 768 tape entries).
+func fillBytes(c *kernel.RunCtx, n int) []byte {
+	if n <= 4096 {
+		return c.Bytes(n)
+	}
+	g := kernel.NewXoshiro(c.U64n(0))
+	out := make([]byte, n)
+	for i := 0; i < n; i += 8 {
+		v := g.Next()
+		for j := 0; j < 8 && i+j < n; j++ {
+			out[i+j] = byte(v >> (8 * uint(j)))
+		}
+	}
+	return out
 }
